@@ -85,7 +85,7 @@ def gen_inlines(rng, depth=0, in_link=False, in_em=False, in_strong=False, allow
                 # literal star), also in the middle of emphasis, where the closing-delimiter search must skip it
                 out.append(("esc", "\\"))
                 out.append(("adj",))
-                node = ("esc", rng.choice([c for c in "*_" if c in allowed] + [rng.choice(allowed)]))
+                node = ("esc", rng.choice([c for c in "*_" if c in allowed] + [rng.choice(allowed), "\\"]))
         else:
             node = ("text", gen_words(rng))
         out.append(node)
@@ -93,8 +93,10 @@ def gen_inlines(rng, depth=0, in_link=False, in_em=False, in_strong=False, allow
             # another link / code span directly behind it, no blank between
             out.append(("adj",))
             out.append(rng.choice([("link", [("text", gen_words(rng, 1, 2))], rng.choice(URLS), None), ("code", gen_words(rng, 1, 1) + ")")]))
-        if allow_breaks and depth == 0 and i < n - 1 and rng.random() < 0.2:
-            out.append(("hard",) if rng.random() < 0.4 else ("soft",))
+        # (after an escape more often, and then mostly a hard break: an escaped backslash directly in front of the backslash form of a hard
+        # break is an odd run of three or more backslashes at the end of a line)
+        if allow_breaks and depth == 0 and i < n - 1 and rng.random() < (0.5 if node[0] == "esc" else 0.2):
+            out.append(("hard",) if rng.random() < (0.8 if node[0] == "esc" else 0.4) else ("soft",))
     # a break must be followed by plain text (the next line must not look like a block start)
     fixed = []
     for j, node in enumerate(out):
